@@ -1560,7 +1560,7 @@ impl UsageValidator {
             while change {
                 let count = sema.used.len();
                 for rule in file.rule_decls(cst) {
-                    if sema.used.contains(&rule.syntax())
+                    if (sema.used.contains(&rule.syntax()) || sema.parts.contains(&rule))
                         && let Some(regex) = rule.regex(cst)
                     {
                         Self::set_regex(cst, sema, regex);
